@@ -41,6 +41,24 @@ def generate(rng, tier):
             seq.append(rng.choice("pva") + str(t))
             seq.append(rng.choice("va") + str(rng.choice(ts)))
         out.append((f"traj b {hx(blk)} " + " ".join(seq), nt))
+    # curved segments that come back to where they started (every axis ends on its start value while the inner control
+    # points differ): velocity and acceleration are not zero inside, although start and end points coincide
+    from vlib.gen_stats import build
+    for _ in range(60 if tier == "thorough" else 12):
+        scale = rng.choice([1, 10, 127])
+        st = (rng.randint(-500, 500), rng.randint(-500, 500), rng.randint(0, 800), rng.choice([0, 900, 1800]))
+        def loop(v, deg):
+            inner = [v + rng.randint(-1000, 1000) for _ in range(deg - 1)]
+            return inner + [v] if deg > 0 else []
+        degs = [rng.choice([3, 3, 7, 0]) for _ in range(3)] + [rng.choice([0, 0, 3])]
+        if all(d == 0 for d in degs):
+            degs[0] = 3
+        seg = (rng.choice([2000, 1000, 46341, 300]), loop(st[0], degs[0]), loop(st[1], degs[1]), loop(st[2], degs[2]), loop(st[3], degs[3]))
+        after = (1500, [st[0] + 100], [], [], [])
+        blk = build(scale, st, [seg, after], use_yaw=rng.random() < 0.5)
+        ts = probe_times(rng, [seg[0], 1500], 3)
+        out.append((f"traj b {hx(blk)} " + " ".join(f"v{t} a{t}" for t in ts), True))
+        out.append((f"traj o {hx(blk)} " + " ".join(f"a{t} p{t} v{t}" for t in ts), True))
     for dx in range(4):
         for dy in range(4):
             blk, durs = traj_block(rng, nseg=2, degs=(dx, dy, (dx + dy) % 4, (dx * dy) % 4), scale=rng.choice([1, 10, 127]))
